@@ -39,6 +39,8 @@ structure St where
   pc : PanicCfg := {}
   scripts : Scripts := []
   pf : List (Bytes × Acc Bytes) := []
+  /-- routers whose model state is unknown because a mutation was outside the modelled domain -/
+  tainted : List Nat := []
   deriving Inhabited
 
 def lookup {α : Type} (l : List (Nat × α)) (k : Nat) : Option α := (l.find? (·.1 = k)).map (·.2)
@@ -62,24 +64,27 @@ def splitTop (cs : List Char) (sep : Char) : List (List Char) :=
 def decVersions (tok : String) : List Bytes :=
   if tok = "%-" then [] else (splitOnChar tok '+').map decB
 
-partial def parseMatcher (s : String) : Matcher :=
-  if s = "any" then .any
-  else if s.startsWith "hosts:" then .hosts ((s.drop 6).toNat?.getD 0)
+/-- `none` = a constructor panics (`NewPathVersion` with an empty version). -/
+partial def parseMatcher (s : String) : Option Matcher :=
+  if s = "any" then some .any
+  else if s.startsWith "hosts:" then some (.hosts ((s.drop 6).toNat?.getD 0))
   else if s.startsWith "pv:" then
     match splitOnChar (s.drop 3).toString ':' with
-    | [p, vs] => .pathVersion (decB p) (decVersions vs)
-    | _ => .any
+    | [p, vs] => ((decVersions vs).mapM normVersion).map (fun vs' => .pathVersion (decB p) vs')
+    | _ => none
   else if s.startsWith "hv:" then
     match splitOnChar (s.drop 3).toString ':' with
-    | [p, k, vs] => .headerVersion (decB p) (decB k) (decVersions vs)
-    | _ => .any
+    | [p, k, vs] =>
+      let key := decB k
+      some (.headerVersion (decB p) (if key = [] then bytesOfString "version" else key) (decVersions vs))
+    | _ => none
   else if s.startsWith "and(" then
     let inner := ((s.drop 4).dropEnd 1).toString
-    .and (if inner = "" then [] else (splitTop inner.toList ';').map (fun cs => parseMatcher (String.ofList cs)))
+    ((if inner = "" then [] else (splitTop inner.toList ';')).mapM (fun cs => parseMatcher (String.ofList cs))).map .and
   else if s.startsWith "or(" then
     let inner := ((s.drop 3).dropEnd 1).toString
-    .or (if inner = "" then [] else (splitTop inner.toList ';').map (fun cs => parseMatcher (String.ofList cs)))
-  else .any
+    ((if inner = "" then [] else (splitTop inner.toList ';')).mapM (fun cs => parseMatcher (String.ofList cs))).map .or
+  else none
 
 /-! ### Formatting observations -/
 
@@ -115,7 +120,7 @@ def fmtCall (c : Call) : String :=
   let node := match c.node with
     | some n => s!"node={encB n.pattern} methods={encMethods n.methods} allow={encB n.allow}"
     | none => "node=- methods=- allow=-"
-  s!"call base={fmtBase c.handler.base} wraps={fmtWraps c.handler.wraps} ok={boolStr c.ok} {node} " ++
+  s!"call base={fmtBase c.handler.base} wraps={fmtWraps c.handler.wraps} {node} " ++
   s!"params={encM c.params} router={encB c.routerName} head={boolStr c.headWrap} path={encB c.path} hdr={encHdr c.respHeaders}"
 
 def fmtServe (x : Option Call × Outcome) : String :=
@@ -183,7 +188,9 @@ def decNatMap (tok : String) : List (Nat × Nat) :=
 
 def withRouter (st : St) (rid : String) (f : Nat → Router → St × String) : St × String :=
   match rid.toNat? with
-  | some id => match st.routers.get? id with
+  | some id =>
+    if st.tainted.contains id then (st, "unsupported")
+    else match st.routers.get? id with
     | some r => f id r
     | none => (st, "bad-op no-router")
   | none => (st, "bad-op")
@@ -191,6 +198,7 @@ def withRouter (st : St) (rid : String) (f : Nat → Router → St × String) : 
 def exceptRouter (st : St) (id : Nat) (x : Except Err Router) : St × String :=
   match x with
   | .ok r => ({ st with routers := st.routers.set id r }, "ok")
+  | .error .unsupported => ({ st with tainted := id :: st.tainted }, "unsupported")
   | .error e => (st, fmtErr e)
 
 def fmtUrl (x : Except Err Bytes) : String :=
@@ -208,7 +216,7 @@ def step (st : St) (line : String) : St × String :=
     match rid.toNat?, mkCfg name trace recover domain icpt corsFlag origins allowH exposed maxAge cred with
     | some id, some cfg =>
       match Router.new cfg with
-      | some r => ({ st with routers := st.routers.set id r }, "ok")
+      | some r => ({ st with routers := st.routers.set id r, tainted := st.tainted.filter (· ≠ id) }, "ok")
       | none => (st, "reject:empty-name")
     | some _, none => (st, "reject:bad-option")
     | _, _ => (st, "bad-op")
@@ -315,9 +323,12 @@ def step (st : St) (line : String) : St × String :=
     | some g, some r =>
       match lookup st.groups g with
       | some grp =>
-        match grp.add st.routers (parseMatcher mexpr) r with
-        | some (grp', rt') => ({ st with groups := update st.groups g grp', routers := rt' }, "ok")
-        | none => (st, "reject:dup-name")
+        match parseMatcher mexpr with
+        | none => (st, "reject:empty-version")
+        | some m =>
+          match grp.add st.routers m r with
+          | some (grp', rt') => ({ st with groups := update st.groups g grp', routers := rt' }, "ok")
+          | none => (st, "reject:dup-name")
       | none => (st, "bad-op")
     | _, _ => (st, "bad-op")
   | ["group-new", gid, rid, name, mexpr] =>
@@ -326,13 +337,19 @@ def step (st : St) (line : String) : St × String :=
     | some g, some r =>
       match lookup st.groups g, lookup st.groupCfg g with
       | some grp, some cfg =>
-        match Router.new { cfg with name := decB name } with
-        | none => (st, "reject:empty-name")
-        | some router =>
-          let rt1 := st.routers.set r router
-          match grp.add rt1 (parseMatcher mexpr) r with
-          | some (grp', rt') => ({ st with groups := update st.groups g grp', routers := rt' }, "ok")
-          | none => (st, "reject:dup-name")
+        match parseMatcher mexpr with
+        | none => (st, "reject:empty-version")
+        | some m =>
+          match Router.new { cfg with name := decB name, notFoundBase := .groupNotFound } with
+          | none => (st, "reject:empty-name")
+          | some router =>
+            let rt1 := st.routers.set r router
+            match grp.add rt1 m r with
+            | some (grp', _) =>
+              -- the router only becomes visible under `rid` when `Add` succeeded
+              let (_, rt') := ((grp.add rt1 m r).getD (grp', rt1))
+              ({ st with groups := update st.groups g grp', routers := rt' }, "ok")
+            | none => (st, "reject:dup-name")
       | _, _ => (st, "bad-op")
     | _, _ => (st, "bad-op")
   | ["group-use", gid, mws] =>
@@ -352,7 +369,8 @@ def step (st : St) (line : String) : St × String :=
   | ["gserve", gid, method, path, host, hdrs, accept] =>
     match gid.toNat? >>= lookup st.groups with
     | some grp =>
-      (st, fmtServe (grp.serveHTTP env st.hostsTab st.pc st.scripts st.routers (mkReq method path host hdrs accept)))
+      if grp.routers.any (fun e => st.tainted.contains e.1) then (st, "unsupported")
+      else (st, fmtServe (grp.serveHTTP env st.hostsTab st.pc st.scripts st.routers (mkReq method path host hdrs accept)))
     | none => (st, "bad-op")
   -- handler behaviour
   | ["script", hid, acts] =>
@@ -368,11 +386,14 @@ def step (st : St) (line : String) : St × String :=
     | none => (st, "reject:empty-version")
   | ["match", mexpr, method, path, host, hdrs, accept, params] =>
     let req := mkReq method path host hdrs accept
-    match (parseMatcher mexpr).run env st.hostsTab req req.path (decM params) with
-    | .accept p ps => (st, s!"match 1 path={encB p} params={encM ps}")
-    | .reject p ps => (st, s!"match 0 path={encB p} params={encM ps}")
-    | .unsupported => (st, "unsupported")
-    | .fault _ => (st, "fault")
+    match parseMatcher mexpr with
+    | none => (st, "reject:empty-version")
+    | some m =>
+      match m.run env st.hostsTab req req.path (decM params) with
+      | .accept p ps => (st, s!"match 1 path={encB p} params={encM ps}")
+      | .reject p ps => (st, s!"match 0 path={encB p} params={encM ps}")
+      | .unsupported => (st, "unsupported")
+      | .fault _ => (st, "fault")
   -- TRACE helper
   | ["trace-helper", _body, _method, _path, _hdrs, _reqbody, dump] =>
     let d : Option Bytes := if dump = "%!" then none else some (decB dump)
